@@ -43,6 +43,7 @@ def parse_xs(s):
 
 
 CG_KINDS = ("sxp", "weibull", "gumbeltrunc", "gev")
+KNOWN_WEI = "C11:esl_wei_FitComplete:tau-above-1-unreachable"
 
 # ------------------------------------------------------------------------------------------------
 # log-likelihoods (python floats, fsum) used by the monitors
@@ -123,7 +124,9 @@ class C11(Prop):
     lean_exe = "c11_driver"
     harness = "h_stats.c"
     theorems = ["EaselModel.Props.C11." + t for t in (
-        "score2bin_interval", "bins_partition", "add_never_faults", "add_counts_once", "histogram_accounts", "bookkeeping_true")]
+        "score2bin_interval", "bins_partition", "add_never_faults", "add_counts_once", "histogram_accounts", "bookkeeping_true",
+        "exp_fit_closed_form", "exp_fit_is_maximiser", "gumbel_mu_is_maximiser", "lawless_is_derivative", "gumbel_complete_fit_stationary",
+        "gumbel_censored_fit_stationary", "gumbel_loc_fits_closed_form", "gumbel_fits_terminate")]
     claimed = True
     technique = ("Lean 4 proof over an executable line-by-line model (numeric class: Float for the bit-exact differential run, Q/R for the theorems) "
                  "+ bit-exact correspondence with the ASan/UBSan-built C code + exact-rational / log-likelihood property monitors")
@@ -682,6 +685,7 @@ class C11(Prop):
                     if not math.isfinite(lam) or any(abs(lam * x) > 700 for x in xs): continue
                 return F("%s returned eslOK with non-finite parameters %r (n=%d)" % (kind, ps, n))
             f = self.check_fit(kind, a, xs, ps, meta)
+            if isinstance(f, tuple): return Failure("monitor", f[0], key=f[1])
             if f: return F(f)
         return None
 
@@ -744,6 +748,42 @@ class C11(Prop):
                 mu2 = mu + fm * max(abs(mu), 1 / lam)
                 v = ll_gumbel(xs, mu2, lam, z, phi)
                 if v > base + slack(base): return "%s (lambda=%r): logL(mu=%r)=%r < logL(mu=%r)=%r" % (kind, lam, mu, base, mu2, v)
+        elif kind in ("gamma", "weibull", "sxp", "gumbeltrunc"):
+            # optimiser results: the returned point satisfies the optimiser's stopping rule; checked here on the implementation's
+            # output: location = smallest observation, and logL at the fit >= logL at +-5% of each optimised parameter (minus the
+            # optimiser's own tolerance). Global optimality is NOT claimed.
+            if n < 30: return None
+            if kind == "gamma":
+                mu = fbits(a["a"]); lam, tau = ps
+                if any(x <= mu for x in xs): return None
+                ll = lambda l, t: ll_gamma(xs, mu, l, t); p0 = (lam, tau); dd, rt = 1e-3, 1e-8
+            elif kind == "weibull":
+                mu, lam, tau = ps
+                if mu != min(xs): return "weibull fit: mu=%r is not the smallest observation %r" % (mu, min(xs))
+                ll = lambda l, t: ll_weibull(xs, mu, l, t); p0 = (lam, tau); dd, rt = 0.05, 1e-3
+            elif kind == "sxp":
+                mu, lam, tau = ps
+                if mu != min(xs): return "stretched-exponential fit: mu=%r is not the smallest observation %r" % (mu, min(xs))
+                ll = lambda l, t: ll_sxp(xs, mu, l, t); p0 = (lam, tau); dd, rt = 0.05, 1e-3
+            else:
+                phi = fbits(a["a"]); mu, lam = ps
+                # documented: "<phi> should not be much greater than <mu> ... or the fit will become unstable": mu is then undetermined
+                if meta.get("censfrac", 0.0) > 0.3 or phi > mu: return None
+                ll = lambda m, l: ll_gumbel_trunc(xs, m, l, phi); p0 = (mu, lam); dd, rt = 0.05, 3e-3
+            if not (p0[1] > 0) or (kind != "gumbeltrunc" and not p0[0] > 0): return "%s fit returned eslOK with parameters %r" % (kind, ps)
+            base = ll(*p0)
+            if not math.isfinite(base): return None
+            for i in (0, 1):
+                for f in (-dd, dd):
+                    q = list(p0)
+                    q[i] = q[i] + f * (abs(q[i]) if (kind != "gumbeltrunc" or i == 1) else max(abs(q[i]), 1 / p0[1]))
+                    v = ll(*q)
+                    if v > base + rt * (abs(base) + n):
+                        return "%s fit (n=%d): logL%r=%r < logL%r=%r" % (kind, n, tuple(p0), base, tuple(q), v)
+            if kind == "weibull" and meta.get("law") == "weibull" and meta.get("src") == "grid" and meta.get("mod") == "none" and n >= 300:
+                if abs(p0[0] / meta["lambda"] - 1) > 0.2 or abs(p0[1] / meta["tau"] - 1) > 0.2:
+                    return ("weibull fit on the exact quantile grid of (lambda=%r,tau=%r) recovered (%r,%r)" % (meta["lambda"], meta["tau"], p0[0], p0[1]),
+                            KNOWN_WEI if meta["tau"] > 1 and p0[1] <= 1.0 else None)
         return None
 
     def extra_evidence(self, ctx):
